@@ -305,6 +305,11 @@ func (e *Engine) havocArgs(st *State, args []Val) {
 				name, sort := e.arrMapName(u.Elem())
 				h := e.heapGet(st, name, sort)
 				na := e.S.Fresh("hv_arr", fmt.Sprintf("(Array %s %s)", e.S.IntSort(), e.sortOf(u.Elem())))
+				// only the elements inside the slice's window may change
+				lo := fmt.Sprintf("(sl_off %s)", a.T)
+				hi := e.arith("+", lo, fmt.Sprintf("(sl_len %s)", a.T), tInt)
+				st.assume(fmt.Sprintf("(forall ((i!h %s)) (! (=> (not (and %s %s)) (= (select %s i!h) (select (select %s (sl_ref %s)) i!h))) :pattern ((select %s i!h))))",
+					e.S.IntSort(), e.compare("<=", lo, "i!h", tInt), e.compare("<", "i!h", hi, tInt), na, h, a.T, na))
 				e.heapSet(st, name, sort, fmt.Sprintf("(store %s (sl_ref %s) %s)", h, a.T, na))
 			case *types.Map:
 				hn, hs, vn, vs := e.mapHeapNames(u)
